@@ -3,387 +3,32 @@ from __future__ import annotations
 
 import ast
 
-from ..flow import enumerate_paths, iter_stmts
 from ..peval import Evaluator, Model, Unsupported, RaisedInModel, ProgramRaised
-from ..source import norm, const_value, walk_no_nested, AnalysisError
-from .common import (is_name, params, single_return, returns_of, stores_in, flatten_targets, root_name, attr_chain,
-                     body_wo_doc, conj_terms, alias_env, subst)
+from ..source import norm
 
 DG = "core/datagroup.py::Datagroup"
 DS = "core/dataset.py::Dataset"
 
 
 # =============================================================================== shape gate
-def check_setitem_gate(run, tree):
-    """Datagroup.__setitem__: the shape test + raise dominates every store; statements before it are pure."""
-    ci = tree.cls(DG)
-    fi = tree.method(ci, "__setitem__")
-    if fi is None:
-        run.violated(DG + ".__setitem__", ci.module.rel, "__setitem__ missing", "group['a'] = x")
-        return
-    run.analysed(fi)
-    pn = params(fi)
-    SELF, KEY, VAL = pn[0], pn[1], pn[2]
-    n_store = 0
-    aenv = alias_env(fi.node)
-    for path in enumerate_paths(fi.node.body):
-        gate_passed = False
-        for it in path:
-            if it[0] == "test":
-                g = gate_polarity(subst(it[1], aenv), SELF, VAL)
-                if g is not None and it[2] is False and g == "mismatch":
-                    gate_passed = True
-                if g is not None and it[2] is True and g == "match":
-                    gate_passed = True
-            elif it[0] == "stmt":
-                st = it[1]
-                if not gate_passed and helper_is_gate(tree, fi, st, SELF, VAL):
-                    gate_passed = True
-                    continue
-                effects = stmt_effects(st, SELF, VAL)
-                for eff in effects:
-                    if eff == "container-store":
-                        n_store += 1
-                    if not gate_passed:
-                        run.violated("%s.__setitem__::%s-before-gate" % (DG, eff), fi.where(st),
-                                     "`%s` executes on a path that has not passed the shape test" % norm(st)[:70],
-                                     "inserting an item of another length: the group (or the rejected value, renamed) is "
-                                     "modified although the insertion must be refused")
-    if n_store == 0:
-        run.unresolved(DG + ".__setitem__::store", fi.where(), "no store into the backing dict found")
-    else:
-        run.holds(DG + ".__setitem__::gate-dominates-store", fi.where(), "%d store paths, all behind the shape test" % n_store)
-    # what happens on mismatch: raise
-    raises = any(helper_is_gate(tree, fi, st, SELF, VAL) for st in iter_stmts(fi.node.body))
-    for path in enumerate_paths(fi.node.body):
-        for it in path:
-            if it[0] == "test" and gate_polarity(subst(it[1], aenv), SELF, VAL) == "mismatch" and it[2] is True and path[-1][1] == "raise":
-                raises = True
-    run.ob(DG + ".__setitem__::mismatch-raises", raises, fi.where(), "a shape mismatch %s" % (
-        "raises" if raises else "does not raise"), "a mis-shaped value is silently ignored or accepted")
-    # renaming to key
-    renamed = any(isinstance(st, ast.Assign) and len(st.targets) == 1 and norm(st.targets[0]) == "%s.name" % VAL and
-                  is_name(st.value, KEY) for st in iter_stmts(fi.node.body))
-    run.ob(DG + ".__setitem__::renamed-to-key", renamed, fi.where(), "stored item %s" % (
-        "is renamed to its key" if renamed else "keeps its old name"), "group['b'] = group['a'][...] keeps the name 'a'")
-    check_shape_is_pure(run, tree)
 
 
-def helper_is_gate(tree, fi, st, SELF, VAL):
-    """`self._check(value)`: a method of the same class that raises on a shape mismatch on every path."""
-    if not (isinstance(st, ast.Expr) and isinstance(st.value, ast.Call)):
-        return False
-    call = st.value
-    if not (isinstance(call.func, ast.Attribute) and is_name(call.func.value, SELF)):
-        return False
-    callee = tree.resolve_call(fi, call)
-    if callee is None or not hasattr(callee, "node") or callee.cls is None:
-        return False
-    hp = params(callee)
-    # bind the helper's parameters to the call-site expressions (self stays self)
-    env = {}
-    vparam = None
-    for i, a in enumerate(call.args):
-        if i + 1 < len(hp):
-            env[hp[i + 1]] = a
-            if is_name(a, VAL):
-                vparam = hp[i + 1]
-    for k in call.keywords:
-        if k.arg:
-            env[k.arg] = k.value
-            if is_name(k.value, VAL):
-                vparam = k.arg
-    if vparam is None:
-        return False
-    if hp[0] != SELF:
-        env[hp[0]] = ast.Name(id=SELF, ctx=ast.Load())
-    env.update({k: subst(v, env) for k, v in alias_env(callee.node).items()})
-    ok_paths, bad = 0, 0
-    for path in enumerate_paths(callee.node.body):
-        if path[-1][1] == "raise":
-            continue
-        passed = False
-        for it in path:
-            if it[0] == "test":
-                g = gate_polarity(subst(it[1], env), SELF, VAL)
-                if (g == "mismatch" and it[2] is False) or (g == "match" and it[2] is True):
-                    passed = True
-            if it[0] == "stmt" and stmt_effects(it[1], hp[0], vparam):
-                bad += 1
-        if passed:
-            ok_paths += 1
-        else:
-            bad += 1
-    return ok_paths > 0 and bad == 0
 
 
-def gate_polarity(test, SELF, VAL):
-    """'mismatch' if test is true exactly when a non-empty group's shape differs from the value's shape."""
-    terms = conj_terms(test)
-    def is_ne(t):
-        if not (isinstance(t, ast.Compare) and len(t.ops) == 1 and isinstance(t.ops[0], ast.NotEq)):
-            return False
-        sides = [t.left, t.comparators[0]]
-        texts = [norm(x) for x in sides]
-        if "%s.shape" % VAL not in texts:
-            return False
-        other = sides[1 - texts.index("%s.shape" % VAL)]
-        # the group's shape: self.shape, or an attribute of self caching it (checked by the cached-state rule)
-        return isinstance(other, ast.Attribute) and is_name(other.value, SELF) and "shape" in other.attr
-
-    has_ne = any(is_ne(t) for t in terms)
-    if has_ne:
-        others = [t for t in terms if not is_ne(t)]
-        # the only other accepted conjunct is "the group is not empty": self.shape / len(self) / self._container
-        for o in others:
-            if not (norm(o) in ("len(%s)" % SELF, "len(%s) > 0" % SELF, "%s._container" % SELF,
-                                "len(%s._container)" % SELF, "len(%s._container) > 0" % SELF)
-                    or (isinstance(o, ast.Attribute) and is_name(o.value, SELF) and "shape" in o.attr)):
-                return None
-        return "mismatch"
-    if isinstance(test, ast.UnaryOp) and isinstance(test.op, ast.Not):
-        inner = gate_polarity(test.operand, SELF, VAL)
-        return {"mismatch": "match", "match": "mismatch"}.get(inner)
-    return None
 
 
-def stmt_effects(st, SELF, VAL):
-    out = []
-    for t in ([x for tg in st.targets for x in flatten_targets(tg)] if isinstance(st, ast.Assign) else
-              [st.target] if isinstance(st, (ast.AugAssign, ast.AnnAssign)) else []):
-        if isinstance(t, ast.Subscript) and norm(t.value) == "%s._container" % SELF:
-            out.append("container-store")
-        elif isinstance(t, (ast.Attribute, ast.Subscript)) and root_name(t) == SELF:
-            out.append("self-store")
-        elif isinstance(t, (ast.Attribute, ast.Subscript)) and root_name(t) == VAL:
-            out.append("value-store")
-    for n in ast.walk(st):
-        if isinstance(n, ast.Call) and isinstance(n.func, ast.Attribute) and norm(n.func.value) == "%s._container" % SELF and \
-                n.func.attr in ("update", "setdefault", "__setitem__"):
-            out.append("container-store")
-    return out
 
 
-def check_shape_is_pure(run, tree):
-    """Datagroup.shape is a function of the current members only (no cached state that deletions could leave stale)."""
-    ci = tree.cls(DG)
-    fi = tree.method(ci, "shape")
-    if fi is None:
-        run.unresolved(DG + ".shape", ci.module.rel, "shape property not found")
-        return
-    run.analysed(fi)
-    SELF = params(fi)[0]
-    other_state = set()
-    for n in walk_no_nested(fi.node):
-        if isinstance(n, ast.Attribute) and is_name(n.value, SELF):
-            a = n.attr
-            if a in ("_container", "keys", "values", "items", "__class__"):
-                continue
-            # attribute that is not a method / property of the class => instance state
-            if tree.method(ci, a) is None:
-                other_state.add(a)
-    if not other_state:
-        run.holds(DG + ".shape::derived-from-members", fi.where(), "shape reads only the backing dict")
-        return
-    # cached state: every method that changes the member set must maintain it
-    for attr in sorted(other_state):
-        lacking = []
-        for mname, m in ci.methods.items():
-            mutates = False
-            for n in walk_no_nested(m.node):
-                if isinstance(n, ast.Call) and isinstance(n.func, ast.Attribute) and norm(n.func.value) == "%s._container" % params(m)[0] \
-                        and n.func.attr in ("__delitem__", "pop", "popitem", "clear", "update", "setdefault", "__setitem__"):
-                    mutates = True
-                if isinstance(n, (ast.Assign, ast.Delete)):
-                    for t in (n.targets):
-                        for tt in flatten_targets(t):
-                            if isinstance(tt, ast.Subscript) and norm(tt.value) == "%s._container" % params(m)[0]:
-                                mutates = True
-            if not mutates:
-                continue
-            maintains = any(isinstance(t, ast.Attribute) and t.attr == attr and is_name(t.value, params(m)[0])
-                            for tg, _ in stores_in(m.node) for t in flatten_targets(tg))
-            if not maintains:
-                lacking.append(mname)
-        run.ob("%s.shape::cached-state[%s]" % (DG, attr), not lacking, fi.where(),
-               "shape depends on the cached attribute %s; methods changing the member set without updating it: %s" % (
-                   attr, lacking or "none"),
-               "set an item, remove the last item with del/pop, then insert an item of another length: rejected although "
-               "the group is empty")
 
 
 # =============================================================================== single writer
-def check_single_writer(run, tree, cls_qual=DG, backing="_container", allowed_store=("__setitem__",),
-                        allowed_rebind=("__init__",)):
-    ci = tree.cls(cls_qual)
-    n_sites = 0
-    for fi in tree.all_functions():
-        SELFS = None
-        for n in walk_no_nested(fi.node):
-            tgt_list = []
-            if isinstance(n, ast.Assign):
-                tgt_list = [x for tg in n.targets for x in flatten_targets(tg)]
-            elif isinstance(n, (ast.AugAssign, ast.AnnAssign)):
-                tgt_list = [n.target]
-            for t in tgt_list:
-                if isinstance(t, ast.Subscript) and isinstance(t.value, ast.Attribute) and t.value.attr == backing:
-                    n_sites += 1
-                    ok = fi.cls is not None and fi.cls.qual == ci.qual and fi.name in allowed_store
-                    run.ob("%s::store-into-%s@%s" % (cls_qual, backing, fi.qual), ok, fi.where(n),
-                           "`%s`" % norm(n)[:80],
-                           "an insertion path that bypasses the gate in __setitem__ (mis-shaped/mis-typed members, stale names)")
-                if isinstance(t, ast.Attribute) and t.attr == backing:
-                    n_sites += 1
-                    ok = fi.cls is not None and fi.cls.qual == ci.qual and fi.name in allowed_rebind and \
-                        isinstance(n, ast.Assign) and isinstance(n.value, ast.Dict) and not n.value.keys
-                    run.ob("%s::rebind-%s@%s" % (cls_qual, backing, fi.qual), ok, fi.where(n), "`%s`" % norm(n)[:80],
-                           "the backing dict is replaced wholesale without validation")
-            if isinstance(n, ast.Call) and isinstance(n.func, ast.Attribute) and isinstance(n.func.value, ast.Attribute) and \
-                    n.func.value.attr == backing and n.func.attr in ("update", "setdefault", "__setitem__", "__ior__"):
-                n_sites += 1
-                ok = fi.cls is not None and fi.cls.qual == ci.qual and fi.name in allowed_store and n.func.attr == "__setitem__"
-                run.ob("%s::%s.%s@%s" % (cls_qual, backing, n.func.attr, fi.qual), ok, fi.where(n), "`%s`" % norm(n)[:80],
-                       "bulk insertion bypasses the per-item gate: update() on an empty group accepts members of "
-                       "different lengths")
-    return n_sites
 
 
-def check_insertion_via_setitem(run, tree, cls_qual, methods):
-    """__init__/update/... insert through self[key] = value over ALL items of dict(*args, **kwargs)."""
-    ci = tree.cls(cls_qual)
-    for m in methods:
-        fi = tree.method(ci, m)
-        construct = "%s.%s::inserts-via-setitem" % (cls_qual, m)
-        if fi is None:
-            run.violated(construct, ci.module.rel, "%s missing" % m, "dict-style %s" % m)
-            continue
-        run.analysed(fi)
-        SELF = params(fi)[0]
-        ok = False
-        for n in walk_no_nested(fi.node):
-            if isinstance(n, ast.For) and isinstance(n.target, ast.Tuple) and len(n.target.elts) == 2:
-                k, v = n.target.elts
-                for st in n.body:
-                    if isinstance(st, ast.Assign) and len(st.targets) == 1 and isinstance(st.targets[0], ast.Subscript) and \
-                            is_name(st.targets[0].value, SELF) and norm(st.targets[0].slice) == norm(k) and \
-                            norm(st.value) == norm(v):
-                        it = n.iter
-                        src = norm(it)
-                        a = fi.node.args
-                        var, kw = (a.vararg.arg if a.vararg else None), (a.kwarg.arg if a.kwarg else None)
-                        direct = "dict(*%s, **%s).items()" % (var, kw)
-                        if src == direct:
-                            ok = True
-                        elif isinstance(it, ast.Call) and isinstance(it.func, ast.Attribute) and it.func.attr == "items" and \
-                                isinstance(it.func.value, ast.Name):
-                            dname = it.func.value.id
-                            for st2 in fi.node.body:
-                                if isinstance(st2, ast.Assign) and is_name(st2.targets[0], dname) and \
-                                        norm(st2.value) == "dict(*%s, **%s)" % (var, kw):
-                                    ok = True
-                        if any(isinstance(x, (ast.If, ast.Continue, ast.Break)) for x in n.body):
-                            ok = False
-        run.ob(construct, ok, fi.where(), "%s %s" % (m, "stores every item of dict(*args, **kwargs) with self[key] = value"
-                                                     if ok else "does not insert every given item through __setitem__"),
-               "%s accepts members that __setitem__ would reject, or drops some" % m)
 
 
 # =============================================================================== indexing / sorting
-def check_getitem_uniform(run, tree):
-    ci = tree.cls(DG)
-    fi = tree.method(ci, "__getitem__")
-    run.analysed(fi)
-    pn = params(fi)
-    SELF, KEY = pn[0], pn[1]
-    loops = [n for n in walk_no_nested(fi.node) if isinstance(n, ast.For)]
-    construct = DG + ".__getitem__::one-index-for-all-members"
-    if len(loops) != 1:
-        run.unresolved(construct, fi.where(), "expected one loop over the members, found %d" % len(loops))
-        return None
-    lp = loops[0]
-    over_all = norm(lp.iter) in ("%s.items()" % SELF, "%s._container.items()" % SELF)
-    filt = any(isinstance(x, (ast.If, ast.Continue, ast.Break, ast.Try)) for x in ast.walk(lp) if x is not lp)
-    key_rebound = any(is_name(t, KEY) for tg, _ in stores_in(lp) for t in flatten_targets(tg))
-    store_ok = False
-    via_setitem = False
-    if isinstance(lp.target, ast.Tuple) and len(lp.target.elts) == 2:
-        nm, val = lp.target.elts
-        for st in lp.body:
-            if isinstance(st, ast.Assign) and len(st.targets) == 1 and isinstance(st.targets[0], ast.Subscript) and \
-                    norm(st.targets[0].slice) == norm(nm) and isinstance(st.value, ast.Subscript) and \
-                    norm(st.value.value) == norm(val) and is_name(st.value.slice, KEY):
-                store_ok = True
-                via_setitem = isinstance(st.targets[0].value, ast.Name)
-    ok = over_all and not filt and not key_rebound and store_ok
-    run.ob(construct, ok, fi.where(lp),
-           "loop over %s%s%s; element stored %s" % (norm(lp.iter), " with a filter" if filt else "",
-                                                   ", index re-bound inside the loop" if key_rebound else "",
-                                                   "as member[key] under the same name" if store_ok else "differently"),
-           "group[mask] / group[perm]: a member is skipped or indexed with something else, so rows no longer correspond")
-    # string keys return the member itself
-    str_ok = False
-    for n in walk_no_nested(fi.node):
-        if isinstance(n, ast.If) and isinstance(n.test, ast.Call) and is_name(n.test.func, "isinstance") and is_name(
-                n.test.args[0], KEY) and norm(n.test.args[1]) == "str":
-            for st in n.body:
-                if isinstance(st, ast.Return) and norm(st.value) == "%s._container[%s]" % (SELF, KEY):
-                    str_ok = True
-    run.ob(DG + ".__getitem__::string-key", str_ok, fi.where(), "string key %s" % (
-        "returns the stored member" if str_ok else "is not a plain lookup"), "group['a'] is not the stored object",
-           nontrivial=False)
-    return via_setitem
 
 
-def check_sortby(run, tree):
-    ci = tree.cls(DG)
-    fi = tree.method(ci, "sortby")
-    construct = DG + ".sortby"
-    if fi is None:
-        run.violated(construct, ci.module.rel, "sortby missing", "load(sortby=...)")
-        return
-    run.analysed(fi)
-    pn = params(fi)
-    SELF, KEY = pn[0], pn[1]
-    loops = [n for n in walk_no_nested(fi.node) if isinstance(n, ast.For)]
-    if len(loops) != 1:
-        run.unresolved(construct, fi.where(), "expected one loop over the members")
-        return
-    lp = loops[0]
-    over_all = norm(lp.iter) in ("%s.keys()" % SELF, "list(%s.keys())" % SELF, "%s" % SELF, "list(%s)" % SELF,
-                                 "%s._container" % SELF, "list(%s._container)" % SELF)
-    filt = any(isinstance(x, (ast.If, ast.Continue, ast.Break, ast.Try)) for x in ast.walk(lp) if x is not lp)
-    var = lp.target.id if isinstance(lp.target, ast.Name) else None
-    perm_name = None
-    store_ok = False
-    for st in lp.body:
-        if isinstance(st, ast.Assign) and len(st.targets) == 1 and norm(st.targets[0]) == "%s[%s]" % (SELF, var) and \
-                isinstance(st.value, ast.Subscript) and norm(st.value.value) == "%s[%s]" % (SELF, var) and \
-                isinstance(st.value.slice, ast.Name):
-            perm_name = st.value.slice.id
-            store_ok = True
-    rebound_in_loop = perm_name is not None and any(is_name(t, perm_name) for tg, _ in stores_in(lp) for t in flatten_targets(tg))
-    ok = over_all and not filt and store_ok and not rebound_in_loop
-    run.ob(construct + "::same-permutation-for-all-members", ok, fi.where(lp),
-           "loop over %s%s; each member re-indexed with %s%s" % (norm(lp.iter), " with a filter" if filt else "",
-                                                                perm_name or "?", " (re-bound inside the loop)" if rebound_in_loop else ""),
-           "sortby: one member (e.g. a Vector) keeps its old order, or each member is sorted by its own values")
-    # the permutation is argsort of the key member, computed once before the loop
-    perm_ok = False
-    if perm_name is not None:
-        for n in walk_no_nested(fi.node):
-            if isinstance(n, ast.Assign) and len(n.targets) == 1 and is_name(n.targets[0], perm_name) and n not in list(ast.walk(lp)):
-                src = norm(n.value)
-                d = None
-                for c in ast.walk(n.value):
-                    if isinstance(c, ast.Call):
-                        dd = tree.dotted(fi.module, c.func)
-                        if dd == "numpy.argsort" and c.args and norm(c.args[0]) in ("%s[%s]" % (SELF, KEY), "%s[%s].values" % (SELF, KEY)):
-                            kws = {k.arg for k in c.keywords}
-                            d = "argsort" if not (kws - {"kind", "stable"}) else None
-                perm_ok = d == "argsort"
-    run.ob(construct + "::permutation-is-argsort-of-key", perm_ok, fi.where(), "permutation %s" % (
-        "= argsort of the key member" if perm_ok else "is not numpy.argsort(self[key])"),
-           "rows ordered by something other than the requested key")
 
 
 # =============================================================================== dict delegation
@@ -395,55 +40,6 @@ DELEGATION = {
 EQUIV = {"__iter__": ("iter({d})",), "__len__": ("len({d})",), "__delitem__": ()}
 
 
-def check_delegation(run, tree, cls_qual, backing):
-    ci = tree.cls(cls_qual)
-    for m, (dm, _) in DELEGATION.items():
-        fi = tree.method(ci, m)
-        construct = "%s.%s" % (cls_qual, m)
-        if fi is None or fi.cls.qual != ci.qual:
-            run.violated(construct, ci.module.rel, "%s is not defined" % m, "dict protocol: %s" % m)
-            continue
-        run.analysed(fi)
-        pn = params(fi)
-        body = body_wo_doc(fi.node)
-        d = "%s.%s" % (pn[0], backing)
-        args = ", ".join(pn[1:])
-        accepted = {"%s.%s(%s)" % (d, dm, args)}
-        for e in EQUIV.get(m, ()):
-            accepted.add(e.format(d=d))
-        calls = []
-        for st in body:
-            v = st.value if isinstance(st, (ast.Return, ast.Expr)) else None
-            if v is not None:
-                calls.append(norm(v))
-            elif isinstance(st, ast.Delete) and m == "__delitem__":
-                calls.append("del:" + norm(st.targets[0]))
-        if m == "__delitem__":
-            accepted.add("del:%s[%s]" % (d, pn[1]))
-        first_ok = bool(calls) and calls[0] in accepted
-        needs_return = m not in ("__delitem__", "clear")
-        returned = (not needs_return) or (len(body) >= 1 and isinstance(body[0], ast.Return))
-        extra = len(body) > 1
-        if m == "clear" and cls_qual == DS:
-            # Dataset.clear also clears meta
-            extra_ok = all(isinstance(st, ast.Expr) and norm(st.value) in ("%s.groups.clear()" % pn[0], "%s.meta.clear()" % pn[0])
-                           for st in body)
-            meta = any(isinstance(st, ast.Expr) and norm(st.value) == "%s.meta.clear()" % pn[0] for st in body)
-            groups = any(isinstance(st, ast.Expr) and norm(st.value) == "%s.groups.clear()" % pn[0] for st in body)
-            run.ob(construct, extra_ok and meta and groups, fi.where(), "clear() clears %s" % (
-                "groups and meta" if meta and groups else "; ".join(calls)), "clear() leaves groups or metadata behind")
-            continue
-        run.ob(construct, first_ok and returned and not extra, fi.where(),
-               "body: %s" % ("; ".join(calls) or norm(body[0])[:60] if body else "empty"),
-               "%s does not behave like dict.%s (wrong arguments, missing return, extra effect)" % (m, dm))
-    # membership: either __contains__ delegates or (absent) Python falls back to __iter__ — both fine
-    fi = tree.method(ci, "__contains__")
-    if fi is not None and fi.cls.qual == ci.qual:
-        ret = single_return(fi)
-        pn = params(fi)
-        ok = ret is not None and norm(ret) in ("%s in %s.%s" % (pn[1], pn[0], backing), "%s.%s.__contains__(%s)" % (pn[0], backing, pn[1]))
-        run.ob("%s.__contains__" % cls_qual, ok, fi.where(), "returns %s" % (norm(ret) if ret is not None else "?"),
-               "`key in container` disagrees with the keys")
 
 
 # =============================================================================== equality quantifier (D7 abstract cases)
